@@ -33,7 +33,7 @@ WILD = 0.875
 # growth of the model in which exactly this set of reactions is forced to zero: (value, status); None = infeasible
 GROWTH: Dict[FrozenSet[str], Optional[float]] = {
     frozenset(): WILD,
-    frozenset({"R1"}): 0.5, frozenset({"R2"}): 0.875, frozenset({"R3"}): None, frozenset({"R4"}): 0.0, frozenset({"R5"}): 0.004,
+    frozenset({"R1"}): 0.25, frozenset({"R2"}): 0.875, frozenset({"R3"}): None, frozenset({"R4"}): 0.0, frozenset({"R5"}): 0.004,
     frozenset({"R1", "R2"}): 0.25, frozenset({"R1", "R3"}): None, frozenset({"R1", "R4"}): 0.0, frozenset({"R1", "R5"}): 0.125,
     frozenset({"R2", "R3"}): None, frozenset({"R2", "R4"}): 0.0, frozenset({"R2", "R5"}): 0.75, frozenset({"R3", "R4"}): None,
     frozenset({"R3", "R5"}): None, frozenset({"R4", "R5"}): None,
@@ -145,6 +145,8 @@ def check_deletions(ctx, rule: str) -> None:
             scenarios.append(("single_gene_deletion", "gene", method, objects, [["gC", "gA"]]))
             scenarios.append(("double_reaction_deletion", "reaction", method, objects, [["R1", "R2"], ["R2", "R4", "R5", "R1"]]))
             scenarios.append(("double_reaction_deletion", "reaction", method, objects, [["R5", "R1"], None]))
+            scenarios.append(("double_reaction_deletion", "reaction", method, objects, [None, ["R2", "R5"]]))
+            scenarios.append(("double_gene_deletion", "gene", method, objects, [None, ["gD", "gA"]]))
             scenarios.append(("double_gene_deletion", "gene", method, objects, [None, None]))
             scenarios.append(("double_gene_deletion", "gene", method, objects, [["gA", "gB"], ["gB", "gD", "gA"]]))
     for fname, kind, method, objects, lists in scenarios:
@@ -154,6 +156,9 @@ def check_deletions(ctx, rule: str) -> None:
         fn = prog.func("cobra.flux_analysis.deletion", fname)
         args = [_as(kind, model, l, objects) for l in lists]
         kwargs: Dict[str, Any] = {"method": method, "processes": 1}
+        if len(lists) == 2 and lists[0] is None and lists[1] is not None:
+            kwargs[("reaction" if kind == "reaction" else "gene") + "_list2"] = args[1]
+            args = []
         if method != "fba":
             ref = SolutionLP(Formulation(model), list(model.reactions), WILD, {"R1": 1.5, "R2": -2.25, "R3": 0.875, "R4": -0.5, "R5": 0.0})
             kwargs["solution"] = ref
@@ -171,6 +176,7 @@ def check_deletions(ctx, rule: str) -> None:
         if len(lists) == 1:
             want = {frozenset({a}) for a in l1}
         else:
+            # documented defaults: list1 None = all entities, list2 None = list1
             l2 = lists[1] if lists[1] is not None else l1
             want = {frozenset({a, b}) for a in l1 for b in l2}
         got = [frozenset(x) for x in out.cols["ids"]]
@@ -214,28 +220,38 @@ def check_deletions(ctx, rule: str) -> None:
     bad = None
     m_n = 0
     for fname, kind in (("find_essential_reactions", "reaction"), ("find_essential_genes", "gene")):
-        for threshold in (None, 0.3, 0.0):
-            model = _model()
-            it = _interp(ctx)
-            fn = prog.func("cobra.flux_analysis.variability", fname)
-            what = f"{fname}(threshold={threshold})"
+        for threshold, neutral in ((None, True), (0.3, True), (0.0, True), (None, False)):
+            # `neutral=False`: a fully reduced network - no single deletion leaves the growth untouched
+            saved = dict(GROWTH)
+            if not neutral:
+                GROWTH[frozenset({"R2"})] = 0.6
+                GROWTH[frozenset({"R5"})] = 0.007
+                GROWTH[frozenset({"R1", "R2"})] = 0.2
             try:
-                out = _run(what, lambda: it.call(fn, [model], {"threshold": threshold, "processes": 1}))
-            except EvalRaise as exc:
-                bad = f"{what} raises {exc.exc_type}"
-                break
-            m_n += 1
-            thr = WILD * 1e-2 if threshold is None else threshold
-            universe = [r.id for r in model.reactions] if kind == "reaction" else list(GENES)
-            want = set()
-            for x in universe:
-                val, st = _value(frozenset({x}) if kind == "reaction" else _implied(frozenset({x})))
-                if st != "optimal" or val < thr:
-                    want.add(x)
-            got = {getattr(o, "id", o) for o in (out or [])}
-            if got != want:
-                bad = f"{what} returns {sorted(got)}; the entities whose deletion drops growth below {thr:g} or makes the model infeasible are {sorted(want)}"
-                break
+                model = _model()
+                it = _interp(ctx)
+                fn = prog.func("cobra.flux_analysis.variability", fname)
+                what = f"{fname}(threshold={threshold})" + ("" if neutral else " on a network without a neutral deletion")
+                try:
+                    out = _run(what, lambda: it.call(fn, [model], {"threshold": threshold, "processes": 1}))
+                except EvalRaise as exc:
+                    bad = f"{what} raises {exc.exc_type}"
+                    break
+                m_n += 1
+                thr = WILD * 1e-2 if threshold is None else threshold
+                universe = [r.id for r in model.reactions] if kind == "reaction" else list(GENES)
+                want = set()
+                for x in universe:
+                    val, st = _value(frozenset({x}) if kind == "reaction" else _implied(frozenset({x})))
+                    if st != "optimal" or val < thr:
+                        want.add(x)
+                got = {getattr(o, "id", o) for o in (out or [])}
+                if got != want:
+                    bad = f"{what} returns {sorted(got)}; the entities whose deletion drops growth below {thr:g} (1% of the wild-type optimum {WILD:g} by default) or makes the model infeasible are {sorted(want)}"
+                    break
+            finally:
+                GROWTH.clear()
+                GROWTH.update(saved)
         if bad:
             break
     ess = prog.func("cobra.flux_analysis.variability", "find_essential_genes")
